@@ -33,7 +33,7 @@ MANIFEST = {
     "note": TRUST + " Transactions emulated like baseapp (ValidateBasic, cache context + recover). Tolerance between epochs is counted per "
             "converted lock (delegate / undelegate / top-up since the last exact refresh, +1 for the rounded base): counting only the locks "
             "currently connected is false for the code's own per-lock rounding (the bounded model exhibits it; measured on every run as "
-            "strict_per_current_lock_exceeded). Validator slashing / jailing (exchange rate != 1), governance removal of superfluid assets, "
+            "strict_per_current_lock_exceeded). Validators other than the block signer are jailed without slash and released (a step that changes nothing in the specification). Validator slashing (exchange rate != 1), governance removal of superfluid assets, "
             "unpool / migration / UnbondConvertAndStake are outside the driver's alphabet. "
             "No spec->impl replay leg (multipliers cannot be set to model values through a public entry point).",
 }
@@ -272,7 +272,7 @@ def run(ctx):
                          "lockup EndBlocker on demand",
                          "rounding of Dec.RoundInt / Dec.Mul taken as documented (to nearest, ties to even); the multiplier is only required to be within one raw unit of OSMO-in-pool / shares",
                          "tolerance between epochs counted per separately rounded lock conversion since the last exact refresh (+1 for the rounded base), proved in the bounded model",
-                         "exchange rate 1 (no slashing / jailing in the alphabet); mint module's epoch not reached within a history (supply otherwise only moved by the driver's fee funding)"])
+                         "exchange rate 1 (no slashing in the alphabet); mint module's epoch not reached within a history (supply otherwise only moved by the driver's fee funding)"])
 
 
 def evidence_on_violation(ctx, v):
